@@ -427,6 +427,8 @@ def run_cell(cx, acc, cid, sid, source, prefix, label_kind, label_idx, issue,
 
 
 def run_shard(spec, acc):
+    from vf.world import gates_world
+    gates_world.c11_run(spec, acc, 6 if spec['tier'] == 'quick' else 50)
     bad = cases.self_check()
     if bad:
         acc.inconc('hand-written expected versions disagree with the '
@@ -504,6 +506,14 @@ def finalize(acc, tier, seed):
 
 
 def replay(w, acc):
+    if w.get('world'):
+        import random
+        from vf.common import env
+        from vf.world import gates_world, runner
+        runner.quiet()
+        return gates_world.c11_cell(
+            acc, random.Random('c11w-%s-%s' % (env.seed(), w['idx'])),
+            w['idx'])
     cx = ctx()
     if 'cascade_only' in w:
         cx.get_cascade(cases.CASE_BY_ID[w['cascade_only']], acc)
